@@ -29,8 +29,8 @@ type gen struct {
 	nInstr int
 	nLabel int
 	// register pools
-	data []int // data registers used by this program
-	base []int // registers holding memory base addresses (set in the prologue)
+	data    []int // data registers used by this program
+	base    []int // registers holding memory base addresses (set in the prologue)
 	memSize int
 }
 
